@@ -34,6 +34,10 @@ GROWERS = ("buffers::Buffer::set_size", "buffers::Buffer::set_width", "buffers::
            "terminal_state::TerminalState::set_height", "parsers::<impl caret::Caret>::lf", "parsers::<impl buffers::Buffer>::print_char")
 
 
+# cursor setters: transparent for R-ROW-CLAMP (value = index of the argument carrying the row / position)
+SETTERS = {"caret::Caret::set_position": 1, "caret::Caret::set_position_xy": 2, "caret::Caret::set_y_position": 1, "caret::Caret::set_x_position": None}
+
+
 def params(b):
     cp = bp = None
     for i in range(1, b.argc + 1):
@@ -106,7 +110,8 @@ def clauses(b):
             out["col-lo"] = [(zero, x, 0)]
         return out
     cp, bp = params(b)
-    if cp is None:
+    if cp is None or b.id in SETTERS:
+        # the plain setters are transparent: the stored value is the caller's obligation (their exit facts say x' = argument)
         return {}
     x = ("n", ("v", cp, ("*", "pos", "x")), 0)
     y = ("n", ("v", cp, ("*", "pos", "y")), 0)
@@ -185,17 +190,29 @@ def last_touch(b, eb, bi, cp):
     return None
 
 
-def linear_nf(e, inline, depth=0):
-    """linear normal form {atom string: coefficient} + constant of an i32 expression; local getters are inlined one level"""
+def _field_chain(e):
+    names = []
+    while e[0] == "field":
+        names.append(e[2])
+        e = e[1]
+    while e[0] in ("deref", "ref"):
+        e = e[1]
+    return e, list(reversed(names))
+
+
+def linear_nf(e, f, self_ty, depth=0):
+    """linear normal form ({atom: coefficient}, constant) of an i32 expression.  Straight-line getters are inlined; atoms
+    are `Type.field.path` (fields of `self`, qualified by the type of the body they occur in) and full callee paths --
+    receivers are ignored: within the cursor code there is one Buffer and one TerminalState (buf.terminal_state)."""
     if depth > 12:
         return None
     k = e[0]
     if k == "const":
         return ({}, e[1])
     if k == "cast":
-        return linear_nf(e[2], inline, depth + 1)
+        return linear_nf(e[2], f, self_ty, depth + 1)
     if k == "bin" and e[1] in ("Add", "Sub"):
-        a, b = linear_nf(e[2], inline, depth + 1), linear_nf(e[3], inline, depth + 1)
+        a, b = linear_nf(e[2], f, self_ty, depth + 1), linear_nf(e[3], f, self_ty, depth + 1)
         if a is None or b is None:
             return None
         sign = 1 if e[1] == "Add" else -1
@@ -204,14 +221,28 @@ def linear_nf(e, inline, depth=0):
             out[kk] = out.get(kk, 0) + sign * v
         return ({kk: v for kk, v in out.items() if v != 0}, a[1] + sign * b[1])
     if k == "call":
-        inl = inline(e)
-        if inl is not None:
-            return linear_nf(inl, inline, depth + 1)
-        args = []
-        for a in e[2]:
-            n = linear_nf(a, inline, depth + 1)
-            args.append(repr(sorted(n[0].items())) + "+%d" % n[1] if n is not None else show(a))
-        return ({"%s(%s)" % (e[1].split("::")[-1], ", ".join(args)): 1}, 0)
+        cb = f.bodies.get(e[1])
+        if cb is not None and cb.nblocks <= 6 and not cb.back_edges and all(bl["term"]["k"] in ("call", "assert", "return", "goto") for bl in cb.blocks):
+            ceb = ExprBuilder(cb)
+            rets = []
+            for bi, kk in cb.defs.get(0, []):
+                rets.append(ceb.call_expr(cb.blocks[bi]["term"]) if kk == "term" else ceb.rvalue(cb.blocks[bi]["stmts"][kk]["rv"]))
+            if len(rets) == 1:
+                r = linear_nf(rets[0], f, cb.impl_self_s, depth + 1)
+                if r is not None:
+                    return r
+        nm = e[1].split("::")[-1]
+        if nm in ("max", "min"):
+            parts = []
+            for a in e[2]:
+                n = linear_nf(a, f, self_ty, depth + 1)
+                parts.append(show(a) if n is None else "%s%+d" % ("+".join("%d*%s" % (v, kk) for kk, v in sorted(n[0].items())), n[1]))
+            return ({"%s(%s)" % (nm, ", ".join(sorted(parts))): 1}, 0)
+        return ({e[1] + "()": 1}, 0)
+    if k == "field":
+        root, names = _field_chain(e)
+        if root[0] == "var" and root[1] == 1 and self_ty:
+            return ({"%s.%s" % (self_ty, ".".join(names)): 1}, 0)
     return ({show(e): 1}, 0)
 
 
@@ -272,8 +303,12 @@ def run(chk):
             if res is None:
                 continue
             ncontract += 1
-            for (p, x) in edges:
-                st = res.edge_states.get((p, x))
+            work = [(p, x, res.edge_states.get((p, x))) for (p, x) in edges]
+            # a return block without incoming edges (single-block bodies) / reached directly: the state at its terminator
+            if not edges:
+                for bi, rst in res.ret_states:
+                    work.append((bi, bi, rst))
+            for (p, x, st) in work:
                 if st is None or st.bottom:
                     continue
                 nret += 1
@@ -364,21 +399,24 @@ def run(chk):
                                 tgt = proj[-1]
                 clamps.append((bi, t, args, tgt))
         chk.floor("R-CLAMP-SHAPE", "clamp calls in limit_caret_pos", len(clamps), 4)
+        FV, FE, LE = "buffers::Buffer::get_first_visible_line()", "buffers::Buffer::get_first_editable_line()", "buffers::Buffer::get_last_editable_line()"
+        HEIGHTS = ("terminal_state::TerminalState.size.height",)
+        WIDTHS = ("terminal_state::TerminalState.size.width",)
         for bi, t, args, tgt in clamps:
-            lo = linear_nf(args[1], inline)
-            hi = linear_nf(args[2], inline)
+            lo = linear_nf(args[1], f, lb.impl_self_s)
+            hi = linear_nf(args[2], f, lb.impl_self_s)
             sx = show(args[0])
-            # which arm? the UpperLeftCorner arm is the one guarded by is_terminal_buffer for y
             if tgt == "x":
-                ok = lo == ({}, 0) and show(args[2]).replace(" ", "") in ("max((get_width(&*self)-1),0)", "max(0,(get_width(&*self)-1))")
+                ok = lo == ({}, 0) and hi is not None and hi[1] == 0 and any(hi[0] == {"max(+0, 1*%s-1)" % w: 1} for w in WIDTHS)
                 want = "[0, max(width-1, 0)]"
             elif tgt == "y":
-                atoms_lo = lo[0] if lo else None
-                ok_ul = lo is not None and hi is not None and list(lo[0].keys()) == ["get_first_visible_line(&*buf)"] and lo[1] == 0 \
-                    and hi[0] == {"get_first_visible_line(&*buf)": 1, "*self.size.height": 1} and hi[1] == -1
-                ok_wm = lo is not None and list(lo[0].keys()) == ["get_first_editable_line(&*buf)"] and "get_last_editable_line" in show(args[2])
+                ok_ul = lo == ({FV: 1}, 0) and hi is not None and hi[1] == -1 and any(hi[0] == {FV: 1, h: 1} for h in HEIGHTS)
+                # origin mode: [first editable line, max(last editable line - 1, first editable line)] -- the region lies inside the screen
+                # iff the margins do (see the row clauses of set_top_and_bottom_margins / change_scrolling_region)
+                ok_wm = lo == ({FE: 1}, 0) and hi is not None and hi[1] == 0 and len(hi[0]) == 1 and re.fullmatch(
+                    r"max\(1\*%s\+0, 1\*%s(-1|\+0)\)" % (re.escape(FE), re.escape(LE)), list(hi[0])[0]) is not None
                 ok = ok_ul or ok_wm
-                want = "[first_visible_line, first_visible_line + height - 1]"
+                want = "[first_visible_line, first_visible_line + height - 1] (or the editable region in origin mode)"
             else:
                 ok = False
                 want = "a clamp whose result is stored into caret.pos.x / caret.pos.y"
@@ -387,6 +425,104 @@ def run(chk):
                 chk.finding("limit_caret_pos|clamp|%s|%s" % (tgt, show(args[2])[:60]), rule="R-CLAMP-SHAPE", where="%s:%s" % (lb.file, t["line"]), fn="limit_caret_pos",
                             what="the %s clamp is not %s: clamp(%s, %s, %s)" % (tgt, want, sx, show(args[1])[:50], show(args[2])[:70]))
         chk.sample("limit_caret_pos clamps: " + "; ".join("%s in [%s, %s]" % (tg, show(a[1])[:30], show(a[2])[:50]) for _, _, a, tg in clamps))
+    # ------------------------------------------------------------------ R-FV-SHAPE: first visible row = max(0, buffer height - terminal height)
+    fvb = f.bodies.get("buffers::Buffer::get_first_visible_line")
+    if chk.anchor(fvb is not None, "R-FV-SHAPE", "anchor missing: Buffer::get_first_visible_line"):
+        feb = ExprBuilder(fvb)
+        BH, TH = "buffers::Buffer.size.height", "terminal_state::TerminalState.size.height"
+        nret_fv = 0
+        for bi, k in fvb.defs.get(0, []):
+            e = feb.call_expr(fvb.blocks[bi]["term"]) if k == "term" else feb.rvalue(fvb.blocks[bi]["stmts"][k]["rv"])
+            nret_fv += 1
+            ok = False
+            if e == ("const", 0):
+                # the arm for buffers that are not terminal buffers (outside the property) -- it must be guarded by the flag
+                sw = [x for x in range(fvb.nblocks) if fvb.blocks[x]["term"]["k"] == "switch"]
+                ok = len(sw) == 1 and "is_terminal_buffer" in show(feb.operand(fvb.blocks[sw[0]]["term"]["discr"]))
+            elif e[0] == "call" and e[1].split("::")[-1] == "max" and len(e[2]) == 2 and ("const", 0) in e[2]:
+                x = [a for a in e[2] if a != ("const", 0)]
+                if len(x) == 1:
+                    x = x[0]
+                    if x[0] == "call" and x[1].endswith("saturating_sub") and len(x[2]) == 2:
+                        ok = linear_nf(x[2][0], f, fvb.impl_self_s) == ({BH: 1}, 0) and linear_nf(x[2][1], f, fvb.impl_self_s) == ({TH: 1}, 0)
+                    else:
+                        ok = linear_nf(x, f, fvb.impl_self_s) == ({BH: 1, TH: -1}, 0)
+            chk.obligation(ok)
+            if not ok:
+                chk.finding("get_first_visible_line|returns|%s" % show(e)[:70], rule="R-FV-SHAPE", where="%s:%s" % (fvb.file, fvb.line), fn=fvb.short(),
+                            what="the first visible row is not max(0, buffer height - terminal height): returns %s" % show(e)[:100])
+        chk.floor("R-FV-SHAPE", "return expressions of get_first_visible_line", nret_fv, 2)
+    # ------------------------------------------------------------------ R-GROW: moving below the last buffer row grows the scrollback
+    # (the row clamp of limit_caret_pos is relative to the *buffer* height, so a row may only pass it after set_height)
+    ngrow = 0
+    for gid in ("parsers::<impl caret::Caret>::lf", "parsers::<impl buffers::Buffer>::print_char"):
+        gb = f.bodies.get(gid)
+        if not chk.anchor(gb is not None, "R-GROW", "anchor missing: %s" % gid):
+            continue
+        geb = ExprBuilder(gb)
+        calls = [(bi, t) for bi, t in gb.calls() if (t["callee"].get("resolved") or "") == "buffers::Buffer::set_height"]
+        if not chk.anchor(len(calls) == 1, "R-GROW", "%s: exactly one Buffer::set_height call expected, found %d" % (gb.short(), len(calls))):
+            continue
+        cbi, ct = calls[0]
+        ngrow += 1
+        Y = "caret::Caret.pos.y" if gb.impl_self_s == "caret::Caret" else None
+
+        def ynf(e, gb=gb):
+            """linear form over the cursor row: {'Y': 1} + c"""
+            n = linear_nf(e, f, gb.impl_self_s)
+            if n is None:
+                return None
+            out = {}
+            for kk, v in n[0].items():
+                out["Y" if kk.endswith("pos.y") else kk] = v
+            return (out, n[1])
+        arg = ynf(geb.operand(ct["args"][1]))
+        ok_arg = arg is not None and arg[0] == {"Y": 1} and arg[1] >= 1
+        # control dependences of the call block: S such that the call block post-dominates one successor of S but not S itself
+        deps = []
+        work = [cbi]
+        while work:
+            x0 = work.pop()
+            for sb in range(gb.nblocks):
+                t = gb.blocks[sb]["term"]
+                if t["k"] != "switch" or len(gb.succ[sb]) < 2 or sb in deps:
+                    continue
+                if any(gb.postdominates(x0, x) for x in gb.succ[sb]) and not gb.postdominates(x0, sb):
+                    deps.append(sb)
+                    work.append(sb)         # transitive: what decides whether the guard itself is evaluated
+        bad = []
+        guard_ok = False
+        BHG = "buffers::Buffer.size.height"
+        for sb in deps:
+            d = geb.operand(gb.blocks[sb]["term"]["discr"])
+            txt = show(d)
+            if "is_terminal_buffer" in txt and "(" not in txt.replace("(*", "").replace(")", ""):
+                continue
+            if d[0] == "bin" and d[1] in ("Gt", "Ge", "Lt", "Le"):
+                l, r = ynf(d[2]), ynf(d[3])
+                if l is not None and r is not None:
+                    if d[1] in ("Lt", "Le"):
+                        l, r = r, l
+                    # l > r  /  l >= r   with  l = Y + a,  r = BH + b :  must be implied by  Y + 1 > BH
+                    if l[0] == {"Y": 1} and r[0] == {BHG: 1}:
+                        k = l[1] - r[1]
+                        if (d[1] in ("Gt", "Lt") and k >= 1) or (d[1] in ("Ge", "Le") and k >= 0):
+                            guard_ok = True
+                            continue
+            bad.append((sb, txt))
+        ok = ok_arg and guard_ok and not bad
+        chk.obligation(ok)
+        if not ok:
+            why = []
+            if not ok_arg:
+                why.append("set_height argument is not row + k (k >= 1)")
+            if not guard_ok:
+                why.append("no guard implied by `row + 1 > buffer height`")
+            for sb, txt in bad:
+                why.append("growth also depends on `%s`" % txt[:60])
+            chk.finding("%s|grow|%s" % (gb.short(), "; ".join(why)[:120]), rule="R-GROW", where="%s:%s" % (gb.file, ct["line"]), fn=gb.short(),
+                        what="the scrollback does not grow whenever the row passes the last buffer row: " + "; ".join(why))
+    chk.floor("R-GROW", "growth sites (Caret::lf, Buffer::print_char)", ngrow, 2)
     # ------------------------------------------------------------------ R-ROW-CLAMP (scrolling emulations)
     scroll_roots = [r for r in roots if not any(m in r for m in FIXED)]
     sreach = g.reachable(scroll_roots)
@@ -405,6 +541,13 @@ def run(chk):
         if b.kind not in ("fn", "method", "closure") or bid == LIMIT:
             continue
         eb = ExprBuilder(b)
+        if bid in SETTERS:
+            continue            # transparent: their call sites are the stores
+        stores = []
+        for bi, t in b.calls():
+            r = t["callee"].get("resolved") or ""
+            if r in SETTERS and SETTERS[r] is not None:
+                stores.append((bi, t["line"], show(eb.operand(t["args"][SETTERS[r]])), True))
         for bi, k, s in b.stmts():
             if s["k"] != "assign":
                 continue
@@ -418,8 +561,9 @@ def run(chk):
             owner_ok = whole_caret or any(el != "*" and el[0] == "f" and el[2] == "pos" and el[3] == "caret::Caret" for el in proj)
             if not owner_ok:
                 continue
+            stores.append((bi, s["line"], show(eb.rvalue(s["rv"])), False))
+        for bi, line, val, via_call in stores:
             nstores += 1
-            val = show(eb.rvalue(s["rv"]))
             key = "%s|store-y|%s" % (b.short(), val[:70])
             if bid in REVIEWED_PRIMS:
                 chk.obligation(True)
@@ -431,16 +575,27 @@ def run(chk):
             # followed by limit_caret_pos (or a callee that ends clean) on every path to a return?
             cleaners = {cb for cb, t in b.calls() if (t["callee"].get("resolved") or "") in ends_clean or (t["callee"].get("resolved") or "") in REVIEWED_PRIMS}
             if not safe:
-                reach_ret = b.reachable_from(bi, avoid=cleaners)
-                # the store's own block is the start: paths that hit a return without a cleaner
-                dirty_exit = any(x in reach_ret for x in b.exits) and not (bi in cleaners)
-                if bi in cleaners:
-                    # cleaner call is the terminator of the same block, i.e. after the store
-                    dirty_exit = False
+                if via_call:
+                    # the store happens in the terminator of block bi: start from its successors
+                    starts = [x for x in b.succ[bi]]
+                    reach_ret = set()
+                    for x in starts:
+                        if x in cleaners:
+                            continue
+                        reach_ret |= b.reachable_from(x, avoid=cleaners)
+                        reach_ret.add(x)
+                    dirty_exit = any(x in reach_ret for x in b.exits)
+                else:
+                    reach_ret = b.reachable_from(bi, avoid=cleaners)
+                    # the store's own block is the start: paths that hit a return without a cleaner
+                    dirty_exit = any(x in reach_ret for x in b.exits) and not (bi in cleaners)
+                    if bi in cleaners:
+                        # cleaner call is the terminator of the same block, i.e. after the store
+                        dirty_exit = False
                 safe = not dirty_exit
             chk.obligation(bool(safe))
             if not safe:
-                chk.finding(key, rule="R-ROW-CLAMP", where="%s:%s" % (b.file, s["line"]), fn=b.short(),
+                chk.finding(key, rule="R-ROW-CLAMP", where="%s:%s" % (b.file, line), fn=b.short(),
                             what="cursor row set to `%s` and a return is reachable without limit_caret_pos (or a reviewed wrap/scroll primitive)" % val[:80])
     chk.floor("R-ROW-CLAMP", "stores to the cursor row / position in scrolling scope", nstores, 20)
     # ------------------------------------------------------------------ R-FIXED-GRID
